@@ -265,6 +265,12 @@ fn fault_step(w: &mut World, ctx: &mut Ctx, st: &Step) -> StepResult {
                     return StepResult::Skipped;
                 }
             };
+            if !whole && om.subject().obsc() == Obsc::Elided && identical_bytes(&enc, &orig) {
+                // an elided subject holds nothing that could be encrypted: leaving the envelope exactly as it is counts
+                // like a refusal (benign edit B8), not like a failed encryption
+                ctx.probe("elided-subject-left-as-is");
+                return StepResult::Refused;
+            }
             ctx.checked();
             if !whole && digest_of(&enc) != digest_of(&orig) {
                 ctx.violate("C08.digest", "the encrypted form does not have the original's digest".to_string());
@@ -535,7 +541,7 @@ fn fault_step(w: &mut World, ctx: &mut Ctx, st: &Step) -> StepResult {
             };
             ctx.checked();
             match guarded(|| delivered.decrypt_subject(&k)) {
-                Ok(Ok(x)) => ctx.violate("C08.misdeclare", format!("a ciphertext whose plaintext (digest {}) does not hash to its declared digest {} was accepted", dhex(&digest_of(&other)), dhex(&digest_of(&x.subject())))),
+                Ok(Ok(x)) => ctx.violate("C08.misdeclare", format!("a ciphertext whose plaintext (digest {}) does not hash to its declared digest {} was accepted", dhex(&digest_of(&other)), dhex(&digest_of(&delivered.subject())))),
                 Ok(Err(_)) => ctx.probe("misdeclare-refused"),
                 Err(p) => ctx.violate_sig("C16.no-panic", format!("decrypt of mis-declared content panicked: {}", p), p),
             }
